@@ -7,9 +7,13 @@ import (
 	"fmt"
 	"free5gclib/nas/logger"
 	"free5gclib/nas/security/snow3g"
+	"sync"
 
 	"github.com/aead/cmac"
 )
+
+// snow3g keeps its LFSR and FSM in package-level variables: one keystream generation at a time
+var snow3gMutex sync.Mutex
 
 func NASEncrypt(AlgoID uint8, KnasEnc [16]byte, Count uint32, Bearer uint8,
 	Direction uint8, payload []byte) error {
@@ -90,12 +94,13 @@ func NEA1(ck [16]byte, countC, bearer, direction uint32, ibs []byte, length uint
 		k[i] = binary.BigEndian.Uint32(ck[4*(3-i) : 4*(3-i+1)])
 	}
 	iv := [4]uint32{(bearer << 27) | (direction << 26), countC, (bearer << 27) | (direction << 26), countC}
-	snow3g.InitSnow3g(k, iv)
-
 	l := (length + 31) / 32
 	r := length % 32
 	ks := make([]uint32, l)
+	snow3gMutex.Lock()
+	snow3g.InitSnow3g(k, iv)
 	snow3g.GenerateKeystream(int(l), ks)
+	snow3gMutex.Unlock()
 	// Clear keystream bits which exceed length
 	if r != 0 {
 		ks[l-1] &= ^((1 << (32 - r)) - 1)
@@ -182,8 +187,10 @@ func NIA1(ik [16]byte, countI uint32, bearer byte, direction uint32, msg []byte,
 	iv := [4]uint32{fresh ^ (direction << 15), countI ^ (direction << 31), fresh, countI}
 	D := ((length + 63) / 64) + 1
 	var z = make([]uint32, 5)
+	snow3gMutex.Lock()
 	snow3g.InitSnow3g(k, iv)
 	snow3g.GenerateKeystream(5, z)
+	snow3gMutex.Unlock()
 
 	P := (uint64(z[0]) << 32) | uint64(z[1])
 	Q := (uint64(z[2]) << 32) | uint64(z[3])
